@@ -118,6 +118,39 @@ impl<I: Iterator + Sized> VxIterMap for I {
     fn vx_map<B, F: FnMut(Self::Item) -> B>(self, f: F) -> (r: VxMap<Self, B>)
     { unimplemented!() }
 }
+// ---- filter ----  (same reason as map: the closure type is kept out of the stand-in type)
+pub struct VxFilter<I> { pub inner: I }
+impl<I: Iterator> Iterator for VxFilter<I> {
+    type Item = I::Item;
+    #[verifier::external_body]
+    fn next(&mut self) -> Option<I::Item> { unimplemented!() }
+}
+impl<I: Iterator> vstd::std_specs::iter::IteratorSpecImpl for VxFilter<I> {
+    open spec fn obeys_prophetic_iter_laws(&self) -> bool { self.inner.obeys_prophetic_iter_laws() }
+    uninterp spec fn remaining(&self) -> Seq<I::Item>;
+    uninterp spec fn will_return_none(&self) -> bool;
+    uninterp spec fn decrease(&self) -> Option<nat>;
+    uninterp spec fn peek(&self, index: int) -> Option<I::Item>;
+}
+pub trait VxIterFilter: Iterator + Sized {
+    fn vx_filter<P: FnMut(&Self::Item) -> bool>(self, p: P) -> (r: VxFilter<Self>)
+        requires
+            self.obeys_prophetic_iter_laws(),
+            forall|k: int| 0 <= k < self.remaining().len() ==> call_requires(p, (&#[trigger] self.remaining()[k],)),
+        ensures
+            r.inner == self,
+            r.remaining().len() <= self.remaining().len(),
+            // run to completion, it yields exactly the elements the predicate accepts, in order
+            r.will_return_none() ==> (self.will_return_none()
+                && r.remaining() == self.remaining().filter(|x: Self::Item| call_ensures(p, (&x,), true))),
+            (r.decrease() is Some) == (self.decrease() is Some);
+}
+impl<I: Iterator + Sized> VxIterFilter for I {
+    #[verifier::external_body]
+    fn vx_filter<P: FnMut(&Self::Item) -> bool>(self, p: P) -> (r: VxFilter<Self>)
+    { unimplemented!() }
+}
+
 // the same method name on Result / Option (the rewrite is purely syntactic)
 pub trait VxResultMap<T, E>: Sized {
     spec fn as_result(self) -> Result<T, E>;
@@ -196,9 +229,7 @@ pub broadcast axiom fn extend_postcondition_vec<T>(before: Seq<T>, it: Vec<T>, a
     requires #[trigger] extend_post(before, it, after),
     ensures after == before + it@;
 
-pub broadcast group vx_axioms {
-    chain_postcondition, enumerate_postcondition, extend_postcondition, extend_postcondition_iter, extend_postcondition_vec,
-}
+
 
 // ---- repeat (only ever used through the R9 hole `vx_repeat_take`) ----
 #[verifier::external_type_specification]
@@ -209,3 +240,12 @@ pub struct ExRepeat<T>(core::iter::Repeat<T>);
 // ---- reflexive conversion `impl<T> From<T> for T` is the identity ----
 pub assume_specification<T>[ <T as core::convert::From<T>>::from ](t: T) -> (r: T)
     ensures r == t;
+
+// ---- the `?` operator converts the error with `From::from` (vstd leaves its `spec_from` uninterpreted) ----
+pub broadcast axiom fn ax_try_uses_from<T, S: core::convert::From<T>>(value: T, ret: S)
+    requires #[trigger] vstd::std_specs::control_flow::spec_from(value, ret),
+    ensures <S as vstd::std_specs::convert::FromSpec<T>>::obeys_from_spec() ==> ret == <S as vstd::std_specs::convert::FromSpec<T>>::from_spec(value);
+
+pub broadcast group vx_axioms {
+    chain_postcondition, enumerate_postcondition, extend_postcondition, extend_postcondition_iter, extend_postcondition_vec, ax_try_uses_from,
+}
